@@ -520,10 +520,12 @@ def _restore_closure_once(tree, rel, b, known, stats):
     if is_method and encl.get(id(refs[0][3]))[1] is not mcls:
       continue
     have = _nested_quals(G, gq)
+    # nested functions that moved, with their surroundings, into some other new helper are not missing
+    elsewhere = set(n_.name for q_, (f_, _, _) in cur.items() if q_ not in known and f_ is not M for n_ in ast.walk(f_) if isinstance(n_, FN) and n_ is not f_)
     cands = []
     for key in b.get('sources', {}):
       r, q = key.split('::', 1)
-      if r == rel and q.startswith(gq + '.') and q not in have:
+      if r == rel and q.startswith(gq + '.') and q not in have and q.rsplit('.', 1)[1] not in elsewhere:
         bn = base_fn(b, rel, q)
         if bn is not None:
           cands.append((similarity(bn, M), q, bn))
@@ -531,6 +533,9 @@ def _restore_closure_once(tree, rel, b, known, stats):
     if not cands or cands[0][0] < 0.5:
       continue
     sim, fq, bnode = cands[0]
+    # a factory that *returns* the closure is not the closure (helper inlining undoes it)
+    if any(isinstance(n_, FN) and similarity(bnode, n_) >= sim for n_ in ast.walk(M) if n_ is not M):
+      continue
     pq = fq.rsplit('.', 1)[0]
     P = G if pq == gq else have.get(pq)
     if P is None:
@@ -589,16 +594,28 @@ def _restore_closure_once(tree, rel, b, known, stats):
           m[kw.arg] = kw.value
       bindings.append((kind, call, m, (p, fld, i, v)))
     captured = None
+    pre_assign = {}
+
+    def literal(a):
+      return isinstance(a, (ast.List, ast.Dict, ast.Set, ast.Tuple, ast.Constant)) and all(isinstance(x, (ast.List, ast.Dict, ast.Set, ast.Tuple, ast.Constant, ast.Load)) for x in ast.walk(a))
     for kind, call, m, _ in bindings:
       c = dict((pn, a.id) for pn, a in m.items() if isinstance(a, ast.Name) and stable(a.id))
+      if len(bindings) == 1 and kind == 'partial':
+        # a literal bound once when the partial is created is a captured variable initialised just before the definition
+        for pn, a in m.items():
+          if pn not in c and literal(a) and pn not in visible:
+            c[pn] = pn
+            pre_assign[pn] = a
       captured = c if captured is None else dict((k, v) for k, v in captured.items() if c.get(k) == v)
     captured = captured or {}
+    pre_assign = dict((k, v) for k, v in pre_assign.items() if k in captured)
     want = len(params_of(bnode))
     # keep only as many captured parameters as needed to reach the reference arity (leading ones first)
     if len(hparams) - len(captured) < want:
       extra = want - (len(hparams) - len(captured))
       for pn in [x for x in reversed(hparams) if x in captured][:extra]:
         captured.pop(pn)
+        pre_assign.pop(pn, None)
     rest = [pn for pn in hparams if pn not in captured]
     # a captured name must not be rebound inside M's body under another meaning
     body = [copy.deepcopy(s_) for s_ in _strip_doc(M.body)] or [ast.Pass()]
@@ -607,7 +624,7 @@ def _restore_closure_once(tree, rel, b, known, stats):
       continue
     mapping = dict((pn, ast.Name(id=v, ctx=ast.Load())) for pn, v in captured.items() if pn != v)
     stores = set(n_.id for s_ in body for n_ in ast.walk(s_) if isinstance(n_, ast.Name) and isinstance(n_.ctx, ast.Store))
-    if any(pn in stores for pn in captured):
+    if any(pn in stores for pn in captured if pn not in pre_assign):
       continue
     if mapping:
       body = [_Subst(mapping).visit(s_) for s_ in body]
@@ -660,6 +677,8 @@ def _restore_closure_once(tree, rel, b, known, stats):
           if isinstance(st, FN):
             continue
           blk.insert(i, nested)
+          for pn, a in pre_assign.items():
+            blk.insert(i, ast.copy_location(ast.Assign(targets=[ast.Name(id=pn, ctx=ast.Store())], value=copy.deepcopy(a)), st))
           placed = True
           break
       if placed:
@@ -738,6 +757,10 @@ def _align(bblk, cblk, bnames, cnames):
   for blk in sm.get_matching_blocks():
     for k in range(blk.size):
       pairs[blk.a + k] = blk.b + k
+  # nested definitions are matched by name wherever they stand
+  for i, k in enumerate(kb):
+    if k.startswith('def ') and i not in pairs and kb.count(k) == 1 and kc.count(k) == 1 and kc.index(k) not in pairs.values():
+      pairs[i] = kc.index(k)
   return pairs
 
 
@@ -757,7 +780,7 @@ def _find_path(fn, target):
   block).  Returns a list of (index, field, handler index) steps plus the final index."""
   def search(blk):
     for i, st in enumerate(blk):
-      if isinstance(st, FN + (ast.ClassDef,)):
+      if isinstance(st, ast.ClassDef):
         continue
       subs = _sub_blocks(st)
       inner_nodes = set(id(x) for _, _, sb in subs for s2 in sb for x in ast.walk(s2))
@@ -995,6 +1018,12 @@ def _outline_site(fb, fq, gb, gc, call):
   """Plan the outlining of one reference call site.  Returns (new function def, apply thunk) or None."""
   bnames = _scope_names(gb)
   cnames = _scope_names(gc)
+  for n_ in ast.walk(gb):
+    if isinstance(n_, FN) and n_ is not gb:
+      bnames |= _scope_names(n_)
+  for n_ in ast.walk(gc):
+    if isinstance(n_, FN) and n_ is not gc:
+      cnames |= _scope_names(n_)
   path = _find_path(gb, call)
   if path is None:
     return _fail('site1')
@@ -1063,10 +1092,23 @@ def _outline_site(fb, fq, gb, gc, call):
         for _, _, sb in _sub_blocks(st):
           later(sb)
         if seen[0] and isinstance(st, (ast.While, ast.For)):
-          rest_loads.update(_loads_of([st]))     # a loop around the region: next iteration reads
+          # a loop around the region: the next iteration reads (everything of the loop but the region itself)
+          inside = set(id(x) for r_ in region for x in ast.walk(r_))
+          rest_loads.update(n.id for n in ast.walk(st) if isinstance(n, ast.Name) and isinstance(n.ctx, ast.Load) and id(n) not in inside)
   later(gc.body)
   stored = _stores(region)
-  live = sorted(x for x in stored if x in rest_loads)
+  # redefined before any later read (straight-line scan of the statements that follow in the same block)
+  redefined = set()
+  seen_load = set()
+  for st in after:
+    if isinstance(st, ast.Assign) and all(isinstance(t, ast.Name) for t in st.targets):
+      seen_load |= _loads_of([st.value])
+      for t in st.targets:
+        if t.id not in seen_load:
+          redefined.add(t.id)
+      continue
+    seen_load |= _loads_of([st])
+  live = sorted(x for x in stored if x in rest_loads and x not in redefined)
   body = [copy.deepcopy(s_) for s_ in region]
   if kind == 'expr':
     if live:
@@ -1229,6 +1271,124 @@ def _outline_expr(fb, fq, bst, region, call, bind, own, cblk, j0, bnames, cnames
   return fnew, apply_
 
 
+# ---------------------------------------------------------------- R4
+def fuse_generators(tree, rel, stats):
+  """A new private generator of the shape  `<init>; while True: yield E; <update>`  that is consumed by exactly one
+  `for T in self._Gen():` loop is fused back into that loop:  `<init>; while True: T = E; <body>; <update>`
+  (a `continue` of the body runs <update> first; `break`/`return` abandon the generator as before)."""
+  b = load_baseline()
+  known = set(b.get('inventory', {}).get(rel, []))
+  if not known:
+    return
+  cur = collect(tree)
+  for gq, (G, gbody, gcls) in list(cur.items()):
+    if gq in known or not _plain(G) or not G.name.startswith('_'):
+      continue
+    body = _strip_doc(G.body)
+    if not body or not isinstance(body[-1], ast.While) or not (isinstance(body[-1].test, ast.Constant) and body[-1].test.value is True) or body[-1].orelse:
+      continue
+    init, loop = body[:-1], body[-1]
+    ys = [n for n in ast.walk(G) if isinstance(n, (ast.Yield, ast.YieldFrom))]
+    if len(ys) != 1 or not loop.body or not (isinstance(loop.body[0], ast.Expr) and loop.body[0].value is ys[0]) or not isinstance(ys[0], ast.Yield) or ys[0].value is None:
+      continue
+    update = loop.body[1:]
+    if any(isinstance(n, (ast.Return, ast.Break, ast.Continue)) for st in init + update for n in ast.walk(st)):
+      continue
+    params = params_of(G)
+    if (gcls is not None and not _is_static(G) and params != ['self']) or (gcls is None and params) or (gcls is not None and _is_static(G) and params):
+      continue
+    # the single consumer
+    uses = []
+    for q, (F, _, fcls) in cur.items():
+      if F is G:
+        continue
+      for n in ast.walk(F):
+        if isinstance(n, ast.Attribute) and n.attr == G.name or isinstance(n, ast.Name) and n.id == G.name:
+          uses.append((F, n))
+    if len(uses) != 1:
+      continue
+    F, ref = uses[0]
+    loops = [n for n in ast.walk(F) if isinstance(n, ast.For) and isinstance(n.iter, ast.Call) and n.iter.func is ref and not n.iter.args and not n.iter.keywords and not n.orelse]
+    drop_assign = None
+    if not loops:
+      # gen = self._Gen()  ...  for T in gen:     (the generator object is used for nothing else)
+      asg = [n for n in ast.walk(F) if isinstance(n, ast.Assign) and len(n.targets) == 1 and isinstance(n.targets[0], ast.Name) and isinstance(n.value, ast.Call)
+             and n.value.func is ref and not n.value.args and not n.value.keywords]
+      if len(asg) == 1:
+        gname = asg[0].targets[0].id
+        refs_g = [n for n in ast.walk(F) if isinstance(n, ast.Name) and n.id == gname]
+        loops = [n for n in ast.walk(F) if isinstance(n, ast.For) and isinstance(n.iter, ast.Name) and n.iter.id == gname and not n.orelse]
+        if len(refs_g) == 2 and len(loops) == 1:
+          drop_assign = asg[0]
+        else:
+          loops = []
+    if len(loops) != 1:
+      continue
+    if gcls is not None and not (isinstance(ref, ast.Attribute) and isinstance(ref.value, ast.Name) and ref.value.id in ('self', gcls.name)):
+      continue
+    L = loops[0]
+    # local names of the generator must not collide with the consumer's
+    fnames = _scope_names(F)
+    gl = _scope_names(G) - set(params)
+    E = ys[0].value
+    ren = {}
+    if isinstance(E, ast.Name) and E.id in gl and isinstance(L.target, ast.Name):
+      ren[E.id] = L.target.id
+    for nm in gl:
+      if nm not in ren and nm in fnames:
+        ren[nm] = nm + '__g'
+    if any(v in fnames and v != (L.target.id if isinstance(L.target, ast.Name) else None) for v in ren.values()):
+      continue
+    r = _Rename(ren)
+    init2 = [r.visit(copy.deepcopy(st)) for st in init]
+    update2 = [r.visit(copy.deepcopy(st)) for st in update]
+    E2 = r.visit(copy.deepcopy(E))
+    head = [] if (isinstance(E2, ast.Name) and isinstance(L.target, ast.Name) and E2.id == L.target.id) else \
+        [ast.copy_location(ast.Assign(targets=[copy.deepcopy(L.target)], value=E2), L)]
+
+    class C(ast.NodeTransformer):
+      def visit_Continue(self, node):
+        return [copy.deepcopy(st) for st in update2] + [node]
+
+      def visit_For(self, node):
+        return node
+      visit_While = visit_AsyncFor = visit_FunctionDef = visit_AsyncFunctionDef = visit_Lambda = visit_For
+
+    def fix(stmts):
+      out = []
+      for st in stmts:
+        rr = C().visit(st)
+        out.extend(rr if isinstance(rr, list) else [rr])
+      return out
+    new_loop = ast.While(test=ast.Constant(value=True), body=head + fix(L.body) + update2, orelse=[])
+    ast.copy_location(new_loop, L)
+    # replace L in its block
+    done = False
+    for n in ast.walk(F):
+      for fld in ('body', 'orelse', 'finalbody'):
+        blk = getattr(n, fld, None)
+        if isinstance(blk, list) and any(x is L for x in blk):
+          k = [i for i, x in enumerate(blk) if x is L][0]
+          blk[k:k + 1] = init2 + [new_loop]
+          done = True
+      if isinstance(n, ast.Try):
+        for h in n.handlers:
+          if any(x is L for x in h.body):
+            k = [i for i, x in enumerate(h.body) if x is L][0]
+            h.body[k:k + 1] = init2 + [new_loop]
+            done = True
+    if done:
+      if drop_assign is not None:
+        for n in ast.walk(F):
+          for fld in ('body', 'orelse', 'finalbody'):
+            blk = getattr(n, fld, None)
+            if isinstance(blk, list) and any(x is drop_assign for x in blk):
+              blk.remove(drop_assign)
+      gbody.remove(G)
+      ast.fix_missing_locations(tree)
+      stats['generators_fused'] = stats.get('generators_fused', 0) + 1
+
+
 # ---------------------------------------------------------------- drivers
 def _note_stable_attrs(trees):
   from . import normalize
@@ -1265,6 +1425,10 @@ def restore_package(trees, stats):
       stats['decorator_error'] = repr(e)
   restore_renamed(trees, stats)
   for rel, tree in trees.items():
+    try:
+      fuse_generators(tree, rel, stats)
+    except Exception as e:
+      stats['generator_error'] = repr(e)
     try:
       restore_closures(tree, rel, stats)
     except Exception as e:
